@@ -296,6 +296,21 @@ Proof.
   assert (Hclo : w_next w <= c) by (inversion HF; auto).
   inversion HF as [? ? ? nso nc1 Hso Hc1 _ Hpar1 Hfil1 _ _ _ _ HI]; subst.
   assert (Hself1 : w_nodes w1 self = Some ns) by (rewrite Hk1; auto).
+  (* fix f5f3361: a copy of an identifiable type without SHORT-NAME is refused; read-only steps *)
+  assert (EXIT1 : Closed w1 /\ CopyFrame self m w w1 /\ exists ns0, w_nodes w self = Some ns0 /\ w_nodes w1 self = Some ns0).
+  { split; auto. split; [apply CopyFrame_of_Ext; repeat split; auto|]. exists ns. auto. }
+  apply wbind_inv in H as [(cn0 & w2 & E2 & H) | (e & E2 & _)].
+  2: { apply get_node_inv in E2 as (? & _ & [=] & _). }
+  apply get_node_inv in E2 as (cn0' & _ & _ & ->). clear cn0'.
+  apply wbind_inv in H as [(nv & w2 & E2 & H) | (e & E2 & _)].
+  2: { apply wl_inv in E2 as (? & _ & [=] & _). }
+  apply wl_inv in E2 as (nv' & _ & _ & ->). clear nv'.
+  apply wbind_inv in H as [(id0 & w2 & E2 & H) | (e & E2 & ->)].
+  2: { assert (w' = w1) by (eapply ro_is_identifiable; eauto). subst w'. exact EXIT1. }
+  assert (w2 = w1) by (eapply ro_is_identifiable; eauto). subst w2. clear E2.
+  destruct (nv && negb id0).
+  { apply wfail_inv in H as (-> & ->). exact EXIT1. }
+  clear EXIT1.
   (* path_unchecked of the destination *)
   apply wbind_inv in H as [(path & w2 & E2 & H) | (e & E2 & ->)].
   2: { assert (w' = w1) by (eapply ro_path_unchecked; eauto). subst w'.
